@@ -404,14 +404,16 @@ def tt_hypotheses(prog, R):
     if has_ps:
         out.append(("tree-traversal-postselect-subtree-renormalised", rew(R), None))
     last = prog["n_mcm"] - 1
-    evb = lambda e, oc: D.eval_expr_boolish(e, oc, {last})  # noqa: E731
-    try:
-        Rb = br.enumerate_branches(D.rbr_program(prog, ev=evb), prog["wires"])
-        out.append(("tree-traversal-bool-outcome-arith", Rb, evb))
-        if has_ps:
-            out.append(("tree-traversal-postselect-subtree-renormalised", rew(Rb), evb))
-    except TypeError:
-        pass
+    ps1 = {s[1] for s in prog["stmts"] if s[0] == "m" and s[4] == 1}  # the 1-branch of these is entered "sideways" (boolean True)
+    for ids in ([{last}] + ([{last} | ps1] if ps1 - {last} else [])):
+        evb = lambda e, oc, ids=ids: D.eval_expr_boolish(e, oc, ids)  # noqa: E731
+        try:
+            Rb = br.enumerate_branches(D.rbr_program(prog, ev=evb), prog["wires"])
+            out.append(("tree-traversal-bool-outcome-arith", Rb, evb))
+            if has_ps:
+                out.append(("tree-traversal-postselect-subtree-renormalised", rew(Rb), evb))
+        except TypeError:
+            pass
     return out
 
 
